@@ -299,6 +299,10 @@ def opaque_getattr(ex, base, attr, node):
                 return ex.class_getattr(VClass(info), attr, node)
         if attr == '__class__':
             return VClass(info if info is not None else cls)
+    tc = ex.top_contract
+    if tc is not None and attr in tc.callees and getattr(tc.callees[attr], 'sig', None):
+        from .calls import VExt
+        return VExt(tc.callees[attr], base)
     ex.limit(f'attribute {attr!r} of opaque object of class {cls} not declared', node)
 
 
@@ -413,6 +417,9 @@ OPAQUE_REPO_CLASSES = {'NocaseDict', 'NocaseList'}
 
 
 def instantiate_repo(ex, info, args, kwargs, node):
+    if info.module.name == 'pywbem._cim_xml':
+        # DOM element constructors: opaque objects (their content models are checked by the bounded stand-in)
+        return VOpaque(z3.Const(ex.fresh_name('elem'), RefSort), info.name)
     if info.name in OPAQUE_REPO_CLASSES:
         ex.used_assumptions.add(f'A-CIMOBJ: {info.name}(...) construction does not raise for these arguments (opaque object)')
         return VOpaque(z3.Const(ex.fresh_name(info.name.lower()), RefSort), info.name)
